@@ -357,6 +357,13 @@ package matcher
 //@         fieldHeap(asType(m, "*options").options[0].Value), fieldHeap(asType(m, "*options").options[0].ValueSetFromEnv), noKeys("*container.Container"), noKeys("*container.Container"), constArray("*container.Container", nilOf("[]string"))) :
 //@     constArray("*container.Container", nilOf("[]string"))
 
+// Priority (C02, C15): the order in which apply tries the transitions of a state is the order of these numbers and, among
+// equals, the order of the spec (Less compares nothing else)
+//@ pure func prio(m Matcher) int =
+//@     isType(m, "*opt") ? 1 : isType(m, "*options") ? 2 : isType(m, "*arg") ? 8 : isType(m, "optsEnd") ? 9 : 10
+//@ func Matcher.Priority()
+//@   ensures def: result == prio(this)
+
 //@ func Matcher.Match(args, c)
 //@   reveal mOK, mRem, mArgsD, mArgsV, mOptsD, mOptsV, matcherWF
 //@   requires wf: matcherWF(this)
